@@ -32,6 +32,7 @@ type c10Workload struct {
 	src     string
 	endless bool // never completes on its own
 	vmOnly  bool
+	generated bool // one of the generated loop x body x wrapper workloads (fewer cancellation points each)
 	// check validates the lines printed up to the stop: nothing may have run
 	// after it, in particular no catch block may have caught the termination.
 	check func(lines []string, n int) string
@@ -118,6 +119,35 @@ fn main() { for i in 0..N { spawn w(i); } try { time.sleep(20.0); } catch e { pr
 	{name: "spawn-late", endless: true, vmOnly: true, check: perWorker, src: `
 fn w(id: int) { let i = 0; loop { println("w", id, i); i = i + 1; time.sleep(0.01); } }
 fn main() { for i in 0..N { time.sleep(0.013); spawn w(i); } loop { let z = 0; } }`},
+}
+
+// Generated endless loops: every loop form x body shape x wrapper. A backend
+// that polls only in some syntactic position (statement, expression, loop
+// head) misses the others.
+func init() {
+	loops := []struct{ name, head string }{
+		{"loop", "loop"}, {"while-lit", "while true"}, {"while-ident", "while flag"}, {"while-expr", "while n >= 0"}, {"for", "for i in 0..2000000000"},
+	}
+	bodies := []struct{ name, body string }{
+		{"empty", ""}, {"let", "let a = 1;"}, {"assign", "n = n + 1;"}, {"call", "f(n);"}, {"nested-empty", "if flag { }"},
+	}
+	wraps := []struct{ name, pre, post string }{
+		{"plain", "", ""}, {"in-try", "try {", "} catch e { println(\"caught\"); }"}, {"in-callee", "", ""},
+	}
+	for _, l := range loops {
+		for _, b := range bodies {
+			for _, w := range wraps {
+				inner := fmt.Sprintf("%s %s { %s } %s", w.pre, l.head, b.body, w.post)
+				src := "fn f(x: int) -> int { x + 1 }\n"
+				if w.name == "in-callee" {
+					src += fmt.Sprintf("fn spin(flag: bool) { let n = 0; %s }\nfn main() { spin(true); println(\"after\"); }", inner)
+				} else {
+					src += fmt.Sprintf("fn main() { let flag = true; let n = 0; %s println(\"after\"); }", inner)
+				}
+				c10Workloads = append(c10Workloads, c10Workload{name: "gen-" + l.name + "-" + b.name + "-" + w.name, endless: true, check: noOutput, src: src, generated: true})
+			}
+		}
+	}
 }
 
 func c10Source(w c10Workload, n int) string {
@@ -442,6 +472,12 @@ func planC10(t *testing.T, tier string, seed uint64) ([]RunSpec, error) {
 				if ref.polls >= 0 && ref.polls < top {
 					top = ref.polls
 				}
+				if w.generated {
+					top = 6
+					if !quick(tier) {
+						top = 40
+					}
+				}
 				perK := 1
 				if w.vmOnly {
 					perK = seedsPerK
@@ -466,7 +502,11 @@ func planC10(t *testing.T, tier string, seed uint64) ([]RunSpec, error) {
 				}
 				// a seeded sample of larger k
 				r := simrt.NewRng(simrt.Mix(seed, uint64(wi), uint64(backend), uint64(n)))
-				for j := 0; j < bigK; j++ {
+				nbig := bigK
+				if w.generated {
+					nbig = 1
+				}
+				for j := 0; j < nbig; j++ {
 					k := int(top) + 1 + r.Intn(4000)
 					if ref.polls >= 0 {
 						k = int(ref.polls) + 1 + r.Intn(20) // after completion
@@ -474,7 +514,7 @@ func planC10(t *testing.T, tier string, seed uint64) ([]RunSpec, error) {
 					add(map[string]int{"cancel_at": k}, 1)
 				}
 				// cancellation by deadline at seeded simulated instants
-				for j := 0; j < bigK; j++ {
+				for j := 0; j < nbig; j++ {
 					us := 1 + r.Intn(200000)
 					add(map[string]int{"deadline_us": us}, 1)
 				}
